@@ -2326,8 +2326,6 @@ struct evrrul_s {
 	echs_tzob_t zon;
 	/* proto-calscale */
 	echs_scale_t cal;
-	/* proto-offset */
-	int pof;
 
 	/* sequence counter */
 	size_t seq;
@@ -2379,8 +2377,11 @@ __make_evrrul(echs_event_t e, rrulsp_t rr, size_t nr)
 	this->cal = echs_instant_scale(e.from);
 	e.from = echs_instant_rescale(e.from, SCALE_GREGORIAN);
 	this->zon = zon = echs_instant_tzob(e.from);
-	this->e = e = echs_event_to_utc(e);
-	this->pof = echs_instant_tzof(e.from, zon);
+	/* the rules are about wall-clock time in ZON (BYHOUR, BYDAY, the
+	 * day of the month, ...), so the proto event stays in local time
+	 * and the fillers work there, refill() converts what they find */
+	e.from = echs_instant_detach_tzob(e.from);
+	this->e = e;
 
 	/* bang the first one */
 	this->rrul = rr[0U];
@@ -2393,6 +2394,17 @@ __make_evrrul(echs_event_t e, rrulsp_t rr, size_t nr)
 		this[i].rrul = rr[i];
 		this[i].seq = i;
 		that[i] = this + i;
+	}
+	if (zon) {
+		/* UNTIL comes in UTC, bring it to where the fillers work */
+		for (size_t i = 0U; i < nr; i++) {
+			const echs_instant_t u = this[i].rrul.until;
+
+			if (!echs_max_instant_p(u) &&
+			    !echs_instant_all_day_p(u)) {
+				this[i].rrul.until = echs_instant_loc(u, zon);
+			}
+		}
 	}
 	return echs_evstrm_vmux((const echs_evstrm_t*)that, nr);
 }
@@ -2502,13 +2514,9 @@ refill(struct evrrul_s *restrict strm)
 	for (size_t i = 0U; i < strm->ncch; i++) {
 		strm->cch[i] = echs_instant_rescale(strm->cch[i], strm->cal);
 	}
-	/* utcify them all, the fillers worked relative to the offset in
-	 * force at DTSTART, so get the wall-clock time back and convert that */
+	/* utcify them all, the fillers worked on wall-clock time */
 	for (size_t i = 0U; strm->zon && i < strm->ncch; i++) {
-		const echs_instant_t loc =
-			echs_tzob_shift(strm->cch[i], 0, strm->pof);
-
-		strm->cch[i] = echs_instant_utc(loc, strm->zon);
+		strm->cch[i] = echs_instant_utc(strm->cch[i], strm->zon);
 	}
 	/* otherwise sort the array, just in case */
 	echs_instant_sort(strm->cch, strm->ncch);
@@ -2562,6 +2570,10 @@ send_evrrul(int whither, echs_const_evstrm_t s)
 	if (!this->seq) {
 		echs_event_t e = this->e;
 
+		/* the proto events are in local time, the cache is in UTC */
+		if (this->zon && !echs_nul_instant_p(e.from)) {
+			e.from = echs_instant_utc(e.from, this->zon);
+		}
 		for (size_t i = 0U; i < this->ref; i++) {
 			echs_instant_t cand = this[i].e.from;
 
@@ -2569,7 +2581,9 @@ send_evrrul(int whither, echs_const_evstrm_t s)
 				/* end of stream innit or we need to refill
 				 * but this stream is const so just use the
 				 * proto event */
-				;
+				if (this->zon && !echs_nul_instant_p(cand)) {
+					cand = echs_instant_utc(cand, this->zon);
+				}
 			} else {
 				cand = this[i].cch[this[i].rdi];
 			}
@@ -2580,6 +2594,15 @@ send_evrrul(int whither, echs_const_evstrm_t s)
 			}
 		}
 		send_ev(whither, e, this->zon);
+	}
+	if (this->zon && !echs_max_instant_p(this->rrul.until) &&
+	    !echs_instant_all_day_p(this->rrul.until)) {
+		/* UNTIL goes out in UTC again */
+		struct rrulsp_s tmp = this->rrul;
+
+		tmp.until = echs_instant_utc(tmp.until, this->zon);
+		send_rrul(whither, &tmp, this->ncch - this->rdi);
+		return;
 	}
 	send_rrul(whither, &this->rrul, this->ncch - this->rdi);
 	return;
